@@ -303,6 +303,32 @@ def rule_trivial(ctx, mod, model):
         ok = len(paths) == 1 and paths[0].kind == "return" and paths[0].value == ["<interval name>"] and calls and calls[-1] == (x, y)
         ctx.check(ok, R, "determine[2 notes,%s]" % flags, fi.where(), "determine([x, y], %s)" % ", ".join(map(str, flags)),
                   "two notes must give [interval name of (x, y)] in the shorthand form too, got %r" % [(p.kind, p.value) for p in paths])
+    # ... and with the library's own interval naming: all 21 x 21 pairs of names with at most one sign, both forms: one text,
+    # never an exception (a doubly augmented third is still an interval with a name)
+    names21 = [L + a_ for L in LETTERS for a_ in ("", "#", "b")]
+    bad = []
+    for n1 in names21:
+        def pairs(it, n1=n1):
+            out = []
+            for n2 in names21:
+                for form in (False, True):
+                    try:
+                        out.append((n2, form, "return", it.call_function(fi, [[n1, n2], form], {})))
+                    except RaiseEx as r:
+                        out.append((n2, form, "raise", r.exc))
+            return out
+        try:
+            ps = explore(lambda ch: Interp(ctx.repo, ch, max_depth=40), pairs)
+        except CannotDecide as e:
+            raise AnalysisError("determine([%r, x]) over 21 names: %s" % (n1, e))
+        if len(ps) != 1 or ps[0].kind != "return":
+            bad.append((n1, "*", [(p.kind, short(repr(p.value), 60)) for p in ps]))
+            continue
+        for n2, form, kind, v in ps[0].value:
+            if kind != "return" or not (isinstance(v, list) and len(v) == 1 and isinstance(v[0], str) and v[0]):
+                bad.append(((n1, n2), "shorthand=%s" % form, kind, v))
+    ctx.check(not bad, R, "determine[2 notes, real interval names]", fi.where(), "determine([x, y]) and determine([x, y], True) for 441 pairs of names",
+              "%d do not answer with one interval name, e.g. %s" % (len(bad), bad[:3]))
 
 
 def rule_recognition(ctx, mod, sh, mean, model):
